@@ -197,6 +197,9 @@ def _child_session(rec):
         sp = {"method": rec["method"], "scf_eps": cfgd["eps"], "scf_converger": [dict(c_) if isinstance(c_, dict) else c_ for c_ in cfgd["conv"]], "sp2": list(cfgd["sp2"]), "UHF": bool(cfgd["uhf"])}
         if cfgd.get("backward"):
             sp["scf_backward"] = int(cfgd["backward"])  # implicit (1) or unrolled (2) differentiable SCF: other code paths of the same solvers
+        if cfgd.get("grad"):
+            # the other two selectable force evaluators (default: reverse-mode differentiation)
+            sp["analytical_gradient"] = [True] if cfgd["grad"] == "analytical" else [True, "numerical"]
         mol = Molecule(Constants(), sp, x.clone(), species, charges=torch.tensor(ch), mult=torch.tensor(mult))
         mol.verbose = False
         es = Electronic_Structure(sp)
@@ -359,7 +362,10 @@ def gen_session(rng, closed_only=False, gap_safe=False):
             conv = rng.choice([[0, rng.choice([0.0, 0.2, 0.5, 0.8])], [1], [1], [2], [2]])
             sp2 = [False] if rng.random() < 0.55 else [True, rng.choice([1e-4, 1e-5, 1e-6, 1e-7, 1e-9])]
             if closed_only and method != "PM6" and rng.random() < 0.15:
-                return {"eps": rng.choice([1e-4, 1e-6, 1e-8]), "conv": [1], "sp2": [False], "uhf": True}
+                out = {"eps": rng.choice([1e-4, 1e-6, 1e-8]), "conv": [1], "sp2": [False], "uhf": True}
+                if rng.random() < 0.4:
+                    out["grad"] = rng.choice(["analytical", "semi-numerical"])
+                return out
             u = rng.random()
             if ksa_ok and u < 0.15:
                 ksa = {"T_el": rng.choice([300.0, 1000.0, 1500.0]), "max_rank": rng.randint(1, 4), "err_threshold": 0.0}
@@ -367,7 +373,10 @@ def gen_session(rng, closed_only=False, gap_safe=False):
             if 0.15 <= u < 0.27:
                 # the differentiable variants of the same solvers (implicit / unrolled backward)
                 return {"eps": rng.choice([1e-4, 1e-6, 1e-8, 1e-10]), "conv": conv, "sp2": [False], "uhf": False, "backward": rng.choice([1, 2, 2])}
-        return {"eps": rng.choice([1e-4, 1e-6, 1e-8, 1e-10]), "conv": conv, "sp2": sp2, "uhf": uhf_session}
+        out = {"eps": rng.choice([1e-4, 1e-6, 1e-8, 1e-10]), "conv": conv, "sp2": sp2, "uhf": uhf_session}
+        if method != "PM6" and rng.random() < 0.2:
+            out["grad"] = rng.choice(["analytical", "semi-numerical"])
+        return out
 
     nops = rng.randint(3, 8)
     ops.append({"op": "SOLVE", "cfg": cfg(), "start": "cold", "cap": 1000})
